@@ -384,6 +384,48 @@ def body_multidict(I, X, ops=("add", "pop"), cls="MultiDict"):
     return ok, {"trace": trace, "final": md_items(I, md)}
 
 
+def body_md_copy(I, X, cls="MultiDict", how="copy", mutate="add"):
+    """copies are independent of the original: mutating a copy (also in place, through the
+    lists it hands out) leaves the original's content unchanged, and vice versa"""
+    from werkzeug import datastructures as ds
+
+    klass = getattr(ds, cls)
+    k0 = sym_char(X, "init0")
+    md = I.call(klass, ([(k0, "v0"), ("c", "v1"), (k0, "v2")],))
+    before = md_items(I, md)
+    if how == "copy":
+        c2 = I.call(md.copy, ())
+    elif how == "ctor":
+        c2 = I.call(klass, (md,))
+    else:
+        import copy as _copy
+
+        c2 = I.call(md.__copy__, ())
+    k = sym_char(X, "k")
+    if mutate == "add":
+        I.call(c2.add, (k, "zz"))
+    elif mutate == "setlistdefault-append":
+        lst = I.call(c2.setlistdefault, (k, []))
+        lst.append("yy")
+    elif mutate == "update":
+        I.call(c2.update, ([(k, "zz")],))
+    elif mutate == "orig-add":
+        snap = md_items(I, c2)
+        I.call(md.add, (k, "zz"))
+        after_c = md_items(I, c2)
+        ok = len(snap) == len(after_c)
+        if ok:
+            for (a1, b1), (a2, b2) in zip(snap, after_c):
+                ok = pand(ok, peq(a1, a2), b1 == b2)
+        return ok, {"copy": after_c}
+    after = md_items(I, md)
+    ok = len(after) == len(before)
+    if ok:
+        for (a1, b1), (a2, b2) in zip(before, after):
+            ok = pand(ok, peq(a1, a2), b1 == b2)
+    return ok, {"orig": after}
+
+
 def body_immutable(I, X, cls="ImmutableMultiDict", op="add"):
     from werkzeug import datastructures as ds
 
@@ -444,6 +486,13 @@ def obligations(tier, seed):
         for ops in itertools.product(MD_OPS, repeat=other_len):
             out.append({"name": f"multidict[{cls},{'+'.join(ops)}]", "body": "body_multidict", "params": {"ops": list(ops), "cls": cls},
                         "opts": {"budget_s": 600, "ctx": {"max_cp": 0x7F}}, "witness": ops == ("add", "pop")})
+    for cls in ("MultiDict", "ImmutableMultiDict"):
+        for how in ("copy", "ctor", "__copy__"):
+            for mutate in ("add", "setlistdefault-append", "update", "orig-add"):
+                if cls == "ImmutableMultiDict" and (how != "copy" or mutate == "orig-add"):
+                    continue  # its copy() returns a mutable MultiDict; the original cannot be mutated
+                out.append({"name": f"md_copy[{cls},{how},{mutate}]", "body": "body_md_copy", "params": {"cls": cls, "how": how, "mutate": mutate},
+                            "opts": {"budget_s": 600, "ctx": {"max_cp": 0x7F}}, "witness": how == "copy" and mutate == "add" and cls == "MultiDict"})
     for cls in ("ImmutableMultiDict", "ImmutableDict"):
         for op in ("add", "setitem", "delitem", "pop", "popitem", "setdefault", "update", "clear", "setlist", "poplist"):
             if cls == "ImmutableDict" and op in ("add", "setlist", "poplist"):
